@@ -5,8 +5,8 @@ Obs == ndJsonDeserialize(IOEnv.TRACE_FILE)
 VARIABLE l
 Documented(e) == {e.rs[k].status : k \in 1..Len(e.rs)}
 HowOf(e, s) == e.rs[CHOOSE k \in 1..Len(e.rs) : e.rs[k].status = s].how
-Typed(e) == \E k \in 1..Len(e.rs) : e.rs[k].how \in {"model", "text", "list", "int", "file"}
-KindOf(how) == CASE how = "model" -> "model:Out" [] how = "text" -> "text" [] how = "list" -> "list:model:Out" [] how = "int" -> "int" [] how = "file" -> "file" [] OTHER -> "None"
+Typed(e) == \E k \in 1..Len(e.rs) : e.rs[k].how \in {"model", "text", "list", "int", "file", "const", "ndjson"}
+KindOf(how) == CASE how = "model" -> "model:Out" [] how = "text" -> "text" [] how = "list" -> "list:model:Out" [] how = "int" -> "int" [] how = "file" -> "file" [] how \in {"const", "ndjson"} -> "text" [] OTHER -> "None"
 \* t0int (a schemaless text/plain listed before application/json integer): the document supports "no payload" and "the integer", never the text as an integer
 E4(e) == IF e.served \in Documented(e) THEN (\/ e.kind = (IF Typed(e) THEN KindOf(HowOf(e, e.served)) ELSE "None")
                                              \/ (HowOf(e, e.served) = "t0int" /\ e.kind = "int"))
